@@ -102,7 +102,7 @@ class World:
                 def server_requested(self, listen_host, listen_port):
                     return True
             sopts['server_factory'] = lambda: self._mk_srv(Srv)
-        if prog == 'rfwd2':
+        if prog in ('rfwd2', 'rfwd-timeout'):
             # the server application takes (virtual) time to decide: several global requests stay outstanding
             class Srv(P.RecServer):
                 async def server_requested(self, listen_host, listen_port):
@@ -192,6 +192,19 @@ class World:
         self.tasks['fwd-b'] = self.loop.create_task(one(8023))
         self.tasks['fwd-c'] = self.loop.create_task(one(8024))
         await one(8022)
+
+    async def prog_rfwd_timeout(self, conn):
+        """the application gives up on a global request (the server is slow to answer): the abandoned request is
+        still the oldest outstanding one when the reply, a close or the loss of the connection comes"""
+        try:
+            lst = await asyncio.wait_for(conn.forward_remote_port('', 8022, 'localhost', 22), 5)
+        except (asyncio.TimeoutError, asyncssh.Error):
+            try:
+                self.tasks['after'] = self.loop.create_task(conn.run('cmd', encoding=None, check=False))
+            except asyncssh.Error:
+                pass
+            return
+        await lst.wait_closed()
 
     async def prog_two(self, conn):
         t1 = self.loop.create_task(self.prog_exec(conn))
@@ -293,7 +306,7 @@ def run(cfg, chooser):
                 raise Livelock('schedule too long')
         # ---- oracle 1: connection still up, channel closed both ways -------
         c_up = pair.c._transport is not None and pair.s._transport is not None
-        single = prog not in ('two', 'sftp', 'sftp-cancel', 'rfwd', 'rfwd2')
+        single = prog not in ('two', 'sftp', 'sftp-cancel', 'rfwd', 'rfwd2', 'rfwd-timeout')
         # a side whose application has reading paused with data still buffered keeps its channel until it reads on:
         # close is delivered after the data, not instead of it
         holding = [s_ for s_ in w.env.get('server_sessions', []) if s_.chan is not None and s_.chan._recv_paused and s_.chan._recv_buf]
@@ -686,7 +699,7 @@ def worker(job):
 
 
 def jobs(tier):
-    progs = ['exec', 'stream', 'run', 'sftp', 'sftp-cancel', 'rfwd', 'rfwd2']
+    progs = ['exec', 'stream', 'run', 'sftp', 'sftp-cancel', 'rfwd', 'rfwd2', 'rfwd-timeout']
     if tier == 'thorough':
         progs.append('two')
     out = []
